@@ -277,10 +277,11 @@ static void run_subcell(Ctx &c, const Cell &cell, const SubCell &sc) {
       for (uint32_t t = 0; t < 4096; t++) tags.insert(t);
       for (uint32_t kt : known) { for (int b = 0; b < 32; b++) tags.insert(kt ^ (1u << b)); tags.insert(kt + 256); tags.insert(kt << 8); tags.insert(kt << 16); tags.insert(kt << 24); tags.insert(kt | 0x80000000u); }
       tags.insert(0xFFFFFFFFu); tags.insert(0x7FFFFFFFu); tags.insert(0x80000000u);
+      str im2 = img;
       for (uint32_t t : tags) if (!known.count(t)) {
-        str im2 = img; memcpy(&im2[0], &t, 4);
+        memcpy(&im2[0], &t, 4);
         pg_op("load_generic", fmt("tag=%u", t)); c.transitions++;
-        std::istringstream in(im2); StringDictionary *d2 = 0;
+        MemBuf mb(im2.data(), im2.size()); std::istream in(&mb); StringDictionary *d2 = 0;
         GUARD(d2 = StringDictionary::load(in, 1), { c.fail("load_generic", "exception", fmt("tag %u", t)); continue; });
         if (d2) c.fail("load_generic", "unknown_tag_accepted", fmt("generic loader returned an object for tag %u", t), fmt("%u", t));
       }
